@@ -194,7 +194,7 @@ Connect ==
                  /\ RecordError("usbtest") /\ wr' = <<"v">> /\ ret' = <<"bool", FALSE>> /\ pc' = "ret" /\ failed' = TRUE /\ UNCHANGED <<port, prog>>
             [] dev \in {"non_ebb", "silent"} ->     \* two probes, neither verified
                  /\ RecordError("noconnect") /\ wr' = <<"v", "v">> /\ ret' = <<"bool", FALSE>> /\ pc' = "ret" /\ failed' = TRUE /\ UNCHANGED <<port, prog>>
-            [] dev = "ebb_old" ->           \* verified, firmware below the minimum
+            [] dev \in {"ebb_old", "ebb_noversion", "ebb_in_text"} ->    \* "EBB" seen, but firmware below the minimum / no version at all / a foreign banner containing the letters
                  /\ RecordError("oldfw") /\ wr' = <<"v">> /\ ret' = <<"bool", FALSE>> /\ pc' = "ret" /\ failed' = TRUE
                  /\ port' = (IF FixConnect THEN "none" ELSE "open") /\ UNCHANGED prog
             [] OTHER ->                      \* ebb_ok (first probe) / ebb_late (second probe): CU,10,1 raw, then the nickname query
